@@ -359,6 +359,8 @@ Definition k_undelegate (del v : Z) (vi : ValInfo) (denom amt : Z) : M unit :=
       sh <- validate_delegated_amount d amt vi1 a ;;
       if del_tokens_with_shares sh vi1 a <? 0 then panic P_NEG_COIN
       else if del_tokens_with_shares sh vi1 a <? amt then fail E_INSUFFICIENT_TOKENS
+      (* the reported balance is rounded up: the asset cannot give out more than it holds *)
+      else if a_tokens a <? amt then fail E_INSUFFICIENT_TOKENS
       else
         vsr <- opt_or_panic P_DIV_ZERO (validator_shares a amt) ;;
         let a' := set_a_vshares (a_vshares a - vsr) (set_a_tokens (a_tokens a - amt) a) in
